@@ -4,10 +4,16 @@
 package main
 
 import (
+	"unsafe"
+
 	"gorgonia.org/tensor"
 )
 
 var ptrIDs = map[uintptr]int{}
+
+// pins keeps every object the hooks have shown alive: an address is then never reused for another object, so that an
+// identity seen twice IS the same object (a pool may drop an object; the collector would recycle its address)
+var pins []unsafe.Pointer
 
 func installHook(g *gen) {
 	tensor.VerifHook = func(event string, size int, id uintptr) {
@@ -17,6 +23,9 @@ func installHook(g *gen) {
 		if !ok {
 			n = len(ptrIDs) + 1
 			ptrIDs[id] = n
+			if id != 0 {
+				pins = append(pins, unsafe.Pointer(id)) //nolint:govet // the caller holds the object while the hook runs
+			}
 		}
 		switch event {
 		case "BorrowInts", "BorrowHeader", "BorrowOpt", "BorrowDense":
